@@ -20,6 +20,7 @@ META = {
     "trusted_base": ["SmallVec::insert_many / pop, ArrayVec::pop, Vec: into_iter/flat_map/collect preserve order", "rustc type checker (associated types)", "rustc MIR construction"],
     "assumptions": [],
 }
+META["explanation"] += " R13.6 in the batched container's push_into_* / filter_map functions (helpers inlined, combinators desugared) the accumulated batch is only grown: nothing an adapter produced for a source batch is discarded."
 
 VEC_IMPL = "std::vec::Vec<eyeball_im::VectorDiff<T>>"
 ONE_IMPL = "eyeball_im::VectorDiff<T>"
@@ -41,7 +42,9 @@ def run(ctx):
         return
     r13_1(ctx, vimp)
     r13_3(ctx, vimp)
+    r13_6(ctx, vimp)
     ads = find_adapters(F)
+    register_roles(ctx, ads)
     for name in ADAPTERS:
         if ads[name].closure is not None and ads[name].translator is not None:
             c15.per_diff_length(ctx, "R13.4", ads[name])
@@ -63,7 +66,7 @@ def r13_1(ctx, imp):
         f = F.fn(UT, p)
         if f is None or not f.built:
             continue
-        b = f.built
+        b = inl(F, f) or f.built   # a shared private helper (map_batch ..) is analysed in place
         if not b.locals[0]["ty"].startswith("std::option::Option<std::vec::Vec<"):
             continue
         for loc, kind, payload in blocks_assigning_ret(b):
@@ -170,3 +173,42 @@ def r13_5(ctx, imp):
             n += 1
             ctx.violated("R13.5", f, "fifo", where, "`%s` parks the translated diffs and pops from the back without reversing them" % f.name)
     ctx.floor("R13.5", n, 5)
+
+
+SHRINK_VEC = r"^std::vec::Vec::<.*>::(clear|truncate|pop|remove|swap_remove|drain|retain|retain_mut|split_off|dedup|dedup_by|dedup_by_key)$"
+
+
+def r13_6(ctx, imp):
+    """what an adapter produced for the diffs of one source batch all reaches the emitted batch: in the batched container's
+    push_into_* / filter_map functions (private helpers inlined) the accumulated Vec<VectorDiff> is only ever grown. The
+    adapters' outputs are relative to the consumer's view (Tail answers a Truncate with PopBacks), so discarding part of them
+    leaves the consumer's view out of step with the adapter's. Expected count 0."""
+    F = ctx.facts
+    bad = 0
+    n = 0
+    for p in imp["fns"]:
+        f = F.fn(UT, p)
+        if f is None or not f.built or not (f.name.startswith("push_into_") or f.name == "filter_map" or f.name.startswith("extend_")):
+            continue
+        b = inl(F, f, desugar=True, tag="r13.6") or f.built
+        n += 1
+        for blk, t in b.calls(SHRINK_VEC):
+            a0 = t["args"][0]
+            if a0["k"] not in ("move", "copy"):
+                continue
+            ty = str(b.locals[a0["place"]["l"]]["ty"])
+            root = strip(b.expr_of_op(a0))
+            rty = ""
+            if root[0] == "local" or root[0] == "param":
+                rty = str(b.locals[root[1]]["ty"])
+            if "VectorDiff<" not in ty + rty:
+                continue
+            m = (t.get("callee") or "").split("::")[-1]
+            # the input batch itself may be consumed front to back (drain / pop of the parameter): only produced output counts
+            if root[0] == "param" and root[1] == 1:
+                continue
+            bad += 1
+            ctx.violated("R13.6", f, "output-never-shrinks", b.line_at((blk, 10 ** 6)),
+                         "`%s` applies `%s` to the batch it is accumulating: diffs an adapter already produced for this source batch are discarded, but they are relative to the consumer's view (e.g. Tail's PopBacks for a Truncate), so the view rebuilt from the batch no longer matches the adapter's state" % (f.name, m))
+    if not bad:
+        ctx.holds("R13.6", None, "output-never-shrinks", None, "%d batched container functions: the accumulated batch is only grown" % n)
